@@ -113,7 +113,7 @@ ADDED = {
  "C11": "Also: no builder, assembler or iterator makes a node out of its own fields (nodeoutside); a ReadSeeker held in a field is positioned before every read and never handed out as it is (sharedseeker); the decoder's input is not recycled storage (decoderbytes); no assembler method writes the node when the assembler is finished (afterfinish). bindnode's builders are held to the reset rule in its reflect spelling: Reset never calls a reflect.Value setter on a handle read out of the builder.",
  "C12": "Also: the finish-hook rule covers every function that writes an assembler's slot; a rejected key leaves the assembler in its initial state (usableafterreject); AssignNode takes the checked route (assignnodechecked). Nothing is written before a repeated key is reported (rejectclean). The member of a union is set before the enclosing finish hook can run (memberthenfinish, shared with C19).",
  "C14": "Also: the LinkPath handed to the link system by get is the path recorded as LastBlock.Path (get); a map key becomes a reported path segment only through its representation when typed and only after AsString succeeded (keysegment).",
- "C15": "Also: the seen-set is never re-created inside a recursive walk (seeninit); start-path comparisons only while not past the start path (startgate); every spending site of package traversal tests the counter before charging (threshold). Within one activation a second visit is never reachable without a new spend, and the functions of the recursion that spend nothing do not invoke the visit callback (once, extended). The Budget pointer of a Progress is replaced only behind the Preloader edge, for the rewind after a preload pass: one budget object is charged by the whole traversal (owners, clause d).",
+ "C15": "Also: the seen-set is never re-created inside a recursive walk (seeninit); start-path comparisons only while not past the start path (startgate); every spending site of package traversal tests the counter before charging (threshold). Within one activation a second visit is never reachable without a new spend, and the functions of the recursion that spend nothing do not invoke the visit callback (once, extended). Inside a walk (the recursive functions and what they reach) the Budget pointer of a Progress is replaced only behind the Preloader edge, for the rewind after a preload pass: everything below one entry point charges one budget object (owners, clause d).",
  "C16": "Also: a transform that stores blocks back loads them with Fill, not through the reifying Load (rawload); the callback runs once per target (onecall), sees the node at the target and not a Match result (callbacknode); the focused transform reports success only after the callback ran or a descent was made (handled); create mode is entered only with the create-parents flag true or at the last step, on every container kind (createparents); a parsed list position reaches the merge with the internal append marker only over a test that excludes the marker (sentinel). The child-iterating steps of the transforming walk select children through the same helpers (siblingselect).",
  "C17": "Also: the escaping functions the package installs treat every key alike (escapeuniform); each stream gets its own writer (streamfresh). A put reports success only after the placement (putstores); no append onto a caller's slice (noappendcaller); the error tested with os.IsExist is the rename's (existsofrename). The link system calls the storage committer with the binary key of the link only (commitkey).",
  "C18": "Also: every streaming helper of the storage packages commits only over the nil edge of every Write (streamcommit).",
